@@ -149,6 +149,9 @@ func (s *vhStore) Get(ctx context.Context, k string, rv any) (uint64, error) {
 
 // Update is only reached natively (replay): the engine redirects getPrincipal to vhGetPrincipal instead.
 func (s *vhStore) Update(ctx context.Context, k string, exp uint32, callback sgbucket.UpdateFunc) (uint64, error) {
+	if s.fail() { // same draw as vhGetPrincipal, so replay values line up
+		return 0, vhErrStore
+	}
 	d, ok := s.docs[k]
 	var cur []byte
 	if ok {
